@@ -244,6 +244,108 @@ def enospc_work(kind):
     return res
 
 
+class SessionDevice(object):
+    """Storage as the whole RUN sees it: every time the output file is opened for writing it is truncated and a new write
+    session starts; the content after a crash is what the current session has written so far."""
+
+    def __init__(self):
+        self.sessions = []
+
+    def open_session(self):
+        dev = RecordingFile()
+        dev.close = lambda: None
+        self.sessions.append(dev)
+        return dev
+
+
+def run_level_work(item):
+    """Crash points of a whole multi-chain run(): the real run() (in-process pool, given completion order) writes through the
+    session device; after every write call of every session the file content is handed to the three readers."""
+    import phyclone.process_trace.process_trace as pt
+    from mc import clidrv
+    import phyclone.run as prun
+    import contextlib
+    import io
+
+    chains, order = item
+    res = {"item": item, "n": 0, "raised": 0, "identical": 0, "problems": [], "sessions": 0}
+    d = traces.scratch("c20r_")
+    try:
+        f, cf = clidrv.write_input(d, 3, 1, False)
+        target = os.path.join(d, "trace.pkl.gz")
+        store = SessionDevice()
+
+        class Shim(object):
+            def GzipFile(self, filename=None, mode=None, *a, **k):
+                if mode and "r" in mode:
+                    return gzip.GzipFile(filename, mode, *a, **k)
+                fo = k.get("fileobj")
+                dev = fo if isinstance(fo, RecordingFile) else store.open_session()
+                return gzip.GzipFile(filename="", mode="wb", fileobj=dev, mtime=0)
+
+        def open_shim(file, mode="r", *a, **k):
+            if file == target and "w" in mode:
+                return store.open_session()
+            return open(file, mode, *a, **k)
+
+        old = pt.gzip
+        pt.gzip = Shim()
+        pt.open = open_shim
+        try:
+            with clidrv.inprocess_pool(list(order)), contextlib.redirect_stdout(io.StringIO()):
+                prun.run(in_file=f, out_file=target, burnin=1, num_iters=3, num_particles=2, grid_size=11, seed=9, num_chains=chains, print_freq=1000)
+        finally:
+            pt.gzip = old
+            del pt.open
+        if os.path.exists(target) and os.path.getsize(target):
+            res["problems"].append({"what": "harness: the run wrote its output outside the in-memory device", "state": None})
+            return res
+        sessions = [b"".join(s_.chunks) for s_ in store.sessions]
+        res["sessions"] = len(sessions)
+        if not sessions:
+            res["problems"].append({"what": "the run wrote nothing", "state": None})
+            return res
+        final = sessions[-1]
+        payload = decompressed(final)
+        path = os.path.join(d, "crash.pkl.gz")
+        outdir = os.path.join(d, "out")
+        os.mkdir(outdir)
+        with open(path, "wb") as fh:
+            fh.write(final)
+        full = run_readers(path, outdir)
+        for name, r in full.items():
+            if r[0] != "OUT":
+                res["problems"].append({"what": "reader %s fails on the file a complete run wrote: %s" % (name, r[1]), "state": None})
+                return res
+        states = []
+        for k, s_ in enumerate(store.sessions):
+            acc = b""
+            for c in s_.chunks:
+                acc += c
+                if not (k == len(sessions) - 1 and acc == final):
+                    states.append((k, len(acc), acc))
+        for k, L, content in states:
+            with open(path, "wb") as fh:
+                fh.write(content)
+            got = run_readers(path, outdir)
+            for name, r in got.items():
+                res["n"] += 1
+                if r[0] == "EXC":
+                    res["raised"] += 1
+                elif r[1] == full[name][1] and decompressed(content) == payload:
+                    res["identical"] += 1
+                else:
+                    res["problems"].append({"what": "a run of %d chains killed during write session %d of %d (after %d bytes of it) leaves a file from which reader %s produces results" % (
+                        chains, k + 1, len(sessions), L, name), "state": [k, L]})
+            if len(res["problems"]) >= 3:
+                break
+    except Exception as e:
+        res["problems"].append({"what": "harness: %s: %s" % (type(e).__name__, str(e)[:150]), "state": None})
+    finally:
+        shutil.rmtree(d, ignore_errors=True)
+    return res
+
+
 def stream_len(kind):
     d = traces.scratch("c20l_")
     try:
@@ -259,7 +361,8 @@ def main(tier, seed):
     chk.rule = ("traces {one chain, two chains, clustered, six chains, nine chains (chain 0 written last), one chain of 1101 entries} written by the real create_main_run_output into an in-memory device; EVERY byte prefix 0..len-1 read by "
                 "write_map_results, write_consensus_results and write_topology_report in one process and at one path, after the complete file was read there (must raise, or - only when the prefix "
                 "still decompresses to the complete payload - give output byte-identical to the complete file's); ENOSPC "
-                "injected at EVERY write-call boundary of the writer; a case is non-trivial when the prefix is non-empty")
+                "injected at EVERY write-call boundary of the writer; whole-run crash points: real run() with 1-3 chains (in-process pool) writing through a session device, the file "
+                "content after every write call of every write session read by the three readers; a case is non-trivial when the prefix is non-empty")
     chk.assumptions = ["gzip header time stamp fixed to 0 so the stream is reproducible", "crash = truncation at a byte; torn writes inside one write call are covered because every byte prefix is enumerated"]
     kinds = ["one-chain", "two-chains", "clustered", "six-chains", "nine-chains"] + (["four-chains", "many-entries", "big-data"] if tier == "thorough" else [])
     items = []
@@ -289,6 +392,17 @@ def main(tier, seed):
         for pr in r["problems"][:3]:
             chk.violation({"sub": "truncated-read", "trace": r["item"][0]}, {"trace": r["item"][0], "problem": pr["what"]}, {"kind": r["item"][0], "prefix": pr["prefix"]})
     chk.note("exception_types", exc)
+    # crash points of a whole run (the run decides when and how often the output file is written)
+    ritems = [(1, (0,)), (2, (0, 1)), (3, (0, 2, 1)), (3, (2, 1, 0))]
+    rinfo = []
+    for r in pool_imap(run_level_work, ritems, chunksize=1):
+        chk.evaluations += r["n"]
+        chk.n_nontrivial_extra += r["n"]
+        chk.bump("reader_runs_that_raised", r["raised"])
+        rinfo.append({"chains": r["item"][0], "completion_order": list(r["item"][1]), "write_sessions": r["sessions"], "crash_states_x_readers": r["n"]})
+        for pr in r["problems"][:3]:
+            chk.violation({"sub": "run-level-crash", "chains": r["item"][0]}, {"chains": r["item"][0], "completion_order": list(r["item"][1]), "problem": pr["what"]}, {"run_level": [r["item"][0], list(r["item"][1])]})
+    chk.note("whole_run_crash_points", rinfo)
     for k in kinds + ["long-chain"]:
         r = enospc_work(k)
         chk.evaluations += r["n"]
@@ -305,6 +419,10 @@ def main(tier, seed):
 def replay(path):
     body = json.load(open(path))
     rp = body["replay"]
+    if "run_level" in rp:
+        r = run_level_work((rp["run_level"][0], tuple(rp["run_level"][1])))
+        print(r["problems"])
+        return 1 if r["problems"] else 0
     if "enospc_at" in rp:
         r = enospc_work(rp["kind"])
     else:
